@@ -1052,36 +1052,66 @@ func (e *c34Env) analyse(fam, format string, s *PkgSpec, data []byte, res *c34Re
 			return
 		}
 		var req, want strings.Builder
+		withPax := 0
 		fmt.Fprintf(&req, "tarfile %d", len(es))
 		fmt.Fprintf(&want, "%d", len(es))
 		for _, en := range es {
-			if len(en.Name) > 100 || len(en.Linkname) > 100 || len(en.Uname) > 32 || len(en.Gname) > 32 || en.Mode < 0 || en.Mode >= 1<<21 ||
-				en.MTime < 0 || en.MTime >= 1<<33 || en.Size >= 1<<33 || en.Uid < 0 || en.Gid < 0 || len(en.PAX) > 0 || (en.Format != "GNU" && en.Format != "USTAR") ||
-				strings.ContainsRune(en.Name, 0) {
-				res.TarSkipped++
-				why := "skipped-field-range"
-				if len(en.PAX) > 0 {
-					why = "skipped-pax-records"
-				} else if len(en.Name) > 100 || len(en.Linkname) > 100 {
-					why = "skipped-long-name"
-				} else if en.Format != "GNU" && en.Format != "USTAR" {
-					why = "skipped-format-" + en.Format
-				} else if en.MTime < 0 || en.MTime >= 1<<33 {
-					why = "skipped-mtime-range"
-				} else if len(en.Uname) > 32 || len(en.Gname) > 32 {
-					why = "skipped-long-owner"
+			why := ""
+			switch {
+			case en.Format != "GNU" && en.Format != "USTAR" && en.Format != "PAX":
+				why = "skipped-format-" + en.Format
+			case len(en.PAX) > 0 && en.Format != "PAX":
+				why = "skipped-records-outside-pax"
+			case len(en.Name) > 100 || len(en.Linkname) > 100:
+				why = "skipped-long-name"
+			case len(en.Uname) > 32 || len(en.Gname) > 32:
+				why = "skipped-long-owner"
+			case en.MTime < 0 || en.MTime >= 1<<33:
+				why = "skipped-mtime-range"
+			case en.Mode < 0 || en.Mode >= 1<<21:
+				why = fmt.Sprintf("skipped-mode-bits-beyond-octal-field-%o-type-%c", en.Mode, en.Type)
+			case en.Size >= 1<<33 || en.Uid < 0 || en.Gid < 0 || en.Uid >= 1<<21 || en.Gid >= 1<<21 || strings.ContainsRune(en.Name, 0):
+				why = "skipped-field-range"
+			case en.Format != "GNU" && !(c34ASCII(en.Name) && c34ASCII(en.Linkname) && c34ASCII(en.Uname) && c34ASCII(en.Gname)):
+				why = "skipped-non-ascii-name"
+			}
+			// records that replace a header field (path, linkpath, size, owner, times) make the main header a cut or
+			// transliterated copy of what the reader reports: outside the model
+			keys := make([]string, 0, len(en.PAX))
+			for k := range en.PAX {
+				switch k {
+				case "path", "linkpath", "size", "uid", "gid", "uname", "gname", "mtime", "atime", "ctime":
+					if why == "" {
+						why = "skipped-pax-record-replaces-header-field"
+					}
 				}
+				keys = append(keys, k)
+			}
+			if why != "" {
+				res.TarSkipped++
 				res.TarBy[format+":"+which+":"+why]++
 				return
 			}
+			sort.Strings(keys)
 			fl := "g"
-			if en.Format == "USTAR" {
+			if en.Format != "GNU" {
 				fl = "u"
 			}
-			fmt.Fprintf(&req, " %s %s %d %d %d %d %d %d %s %s %s %s", fl, wire.H(en.Name), en.Mode, en.Uid, en.Gid, en.Size, en.MTime, en.Type,
-				wire.H(en.Linkname), wire.H(en.Uname), wire.H(en.Gname), wire.H(string(en.Body)))
-			fmt.Fprintf(&want, " %s %s %d %d %d %d %d %d %s %s %s %d", fl, wire.H(en.Name), en.Mode, en.Uid, en.Gid, en.Size, en.MTime, en.Type,
-				wire.H(en.Linkname), wire.H(en.Uname), wire.H(en.Gname), len(en.Body))
+			var pax strings.Builder
+			fmt.Fprintf(&pax, "%d", len(keys))
+			for _, k := range keys {
+				fmt.Fprintf(&pax, " %s %s", wire.H(k), wire.H(en.PAX[k]))
+			}
+			if len(keys) > 0 {
+				withPax++
+			}
+			fmt.Fprintf(&req, " %s %s %d %d %d %d %d %d %s %s %s %s %s", fl, wire.H(en.Name), en.Mode, en.Uid, en.Gid, en.Size, en.MTime, en.Type,
+				wire.H(en.Linkname), wire.H(en.Uname), wire.H(en.Gname), pax.String(), wire.H(string(en.Body)))
+			fmt.Fprintf(&want, " %s %s %d %d %d %d %d %d %s %s %s %s %d", fl, wire.H(en.Name), en.Mode, en.Uid, en.Gid, en.Size, en.MTime, en.Type,
+				wire.H(en.Linkname), wire.H(en.Uname), wire.H(en.Gname), pax.String(), len(en.Body))
+		}
+		if withPax > 0 {
+			res.TarBy[format+":"+which+":compared-with-pax-records"]++
 		}
 		res.TarCompared++
 		res.TarBy[format+":"+which+":compared"]++
@@ -1880,4 +1910,13 @@ func (e *c34Env) apkSegmentSizeCases() []c34Case {
 func runC03(c *Ctx) error {
 	_, err := c34Families(c, "C03", nil)
 	return err
+}
+
+func c34ASCII(s string) bool {
+	for i := 0; i < len(s); i++ {
+		if s[i] >= 0x80 {
+			return false
+		}
+	}
+	return true
 }
